@@ -143,6 +143,12 @@ def gen_cases(tier, rng):
         for ts in subsets(NULPHA):
             k += 1
             cases.append(isn(col[0], ts, ["list", "tuple", "set", "objarray"][k % 4], _n=k))
+    # ---- compare_arrays directly (the mechanism under isin; model-compared, the property itself does not mention it) ------
+    bs = [bytes(c) for ln in range(4 if big else 3) for c in itertools.product([0x00, 0x61, 0x62, 0xc3], repeat=ln)]
+    for a in bs:
+        for b in bs:
+            k += 1
+            cases.append({"op": "compare_arrays", "a": a.hex(), "b": b.hex(), "_n": k})
     # ---- malformed / degenerate arguments ----------------------------------------------------------------------------
     for col in ([], ["a"], ["b", "a", "b"]):
         cases.append(isn(col, None))
@@ -339,6 +345,11 @@ def canon_vals(case, arr):
 def impl(case):
     e = _env()
     fields = e["fields"]
+    if case["op"] == "compare_arrays":
+        from exetera.core import operations as ops
+        np = e["np"]
+        return {"c": int(ops.compare_arrays(np.frombuffer(unhx(case["a"]), dtype=np.uint8),
+                                            np.frombuffer(unhx(case["b"]), dtype=np.uint8)))}
     f, name = make_field(e, case)
     try:
         res = {}
@@ -397,6 +408,8 @@ def out_vals(case, xs):
 
 
 def check_spec(case, io, mode):
+    if case["op"] == "compare_arrays":
+        return None            # internal mechanism: compared with the model (theorem compare_arrays_is_lex), no demand of the property
     col = values_of(case)
     if case["op"].startswith("isin"):
         ts = tests_of(case)
@@ -451,6 +464,8 @@ def compare(case, io, mo, mode):
         a, b = io.get("err"), mo.get("err")
         return None if a == b else f"impl err={a} ({io.get('msg', '')}) model err={b}"
     m = mo["ok"]
+    if case["op"] == "compare_arrays":
+        return None if io["c"] == m else f"compare_arrays: impl={io['c']} model={m}"
     for key in ("r", "u", "index", "inverse", "counts"):
         if key in io or key in m:
             if io.get(key) != m.get(key):
@@ -473,6 +488,8 @@ def sort_perm_kind(col):
 
 
 def nontrivial(case, mo):
+    if case["op"] == "compare_arrays":
+        return case["a"] != case["b"]
     col = values_of(case)
     if case["op"].startswith("isin"):
         ts = tests_of(case)
@@ -481,6 +498,10 @@ def nontrivial(case, mo):
 
 
 def classify(case, mo):
+    if case["op"] == "compare_arrays":
+        a, b = unhx(case["a"]), unhx(case["b"])
+        return ["compare_arrays", "cmp-prefix" if a != b and (a.startswith(b) or b.startswith(a)) else
+                ("cmp-equal" if a == b else "cmp-differ")]
     tags = [case["op"], "backing-" + case.get("backing", "mem")]
     col = values_of(case)
     if case["op"].startswith("unique"):
@@ -512,6 +533,8 @@ def classify(case, mo):
 
 def select_for_mode(case, mode, tier):
     n = case.get("_n", 0)
+    if case["op"] == "compare_arrays":
+        return n % 3 == 0
     if "_corpus" in case:
         return True
     if len(case["col"]) > 12:
